@@ -358,6 +358,8 @@ def streams(rng, tier):
                      "bad=0 against the harness' independent reference, hash equal to the model's")
     st.shrinkable = False
     out.append(st)
+    from verifkit import dextra
+    out.append(dextra.stream(rng, tier, floats_only=True))
     for s in out:
         s.shrinkable = False        # ops are structured (item = initial byte + payload); failing ops are reported as they are
     return out
@@ -369,6 +371,9 @@ def replay_streams(rp):
         s = Stream("replay", "hcore", [op], model_ops=[rp.get("model_op") or op], judge=judge_blk)
         s.shrinkable = False
         return [s]
+    if op.startswith("dextra"):
+        from verifkit import dextra
+        return [dextra.replay(rp)]
     if op.startswith("tenc"):
         return [Stream("replay", "hcore", [op], judge=judge_trait)]
     if op.startswith("seq"):
